@@ -453,6 +453,23 @@ def autodiff_errors(cfg, obj, x, c, J=None, tol=1e-6):
     return errs
 
 
+_REPORTED = {}
+
+
+def _already(ctx, unit, cfg, method):
+    """One confirmed report per (unit, class, transformer kind, method): further disagreements of the same kind are only counted
+    (every confirmation runs un-jitted real methods, and XLA's CPU JIT gives up after a few hundred compilations per process)."""
+    key = (id(ctx), unit.name, cfg["kind"], cfg["t"]["kind"], method)
+    sig = _REPORTED.get(key)
+    if sig is None:
+        return False
+    unit.disagreements += 1
+    for v in ctx.violations:
+        if v["sig"] == sig:
+            v["count"] += 1
+    return True
+
+
 def _report(ctx, unit, cfg, init, raws, biases, obj, method, x, c, what, expected, observed, oracle):
     """Confirmed disagreement: run the property's own oracle at (and, for round trips, around) the case, then report."""
     cls = "MaskedAutoregressive" if cfg["kind"] == "maf" else "Coupling"
@@ -469,12 +486,22 @@ def _report(ctx, unit, cfg, init, raws, biases, obj, method, x, c, what, expecte
     except Exception as e:  # pragma: no cover
         errs.append(f"oracle raised {type(e).__name__}: {str(e)[:100]}")
     unit.disagreements += 1
+    _REPORTED[(id(ctx), unit.name, cfg["kind"], cfg["t"]["kind"], method)] = f"{cls}[{cfg['t']['kind']}].{method}:{'oracle' if errs else 'model-mismatch'}:{unit.name}"
     ctx.violation(sig=f"{cls}[{cfg['t']['kind']}].{method}:{'oracle' if errs else 'model-mismatch'}:{unit.name}",
                   what=(f"{cls} ({cfg['t']['kind']} transformer): " + "; ".join(errs)) if errs else f"{cls}.{method} ({unit.name}): {what}",
                   case=_case(cfg, init, raws, biases, method, x, c), found_input=bool(errs), unit=unit.name,
                   expected=str(expected)[:400], observed=str(observed)[:400],
                   broken=f"correspondence {unit.name} (coq/Model/AutoregNet.v) / theorems of Props/X01_autoreg.v about this layer",
                   reproducer="cd /verif && /venv/bin/python -m harness.autoreg --replay <this file>")
+
+
+def _bump(ctx, sig):
+    """True (and the count incremented) if a violation with this signature was already reported in this run."""
+    for v in ctx.violations:
+        if v["sig"] == sig:
+            v["count"] += 1
+            return True
+    return False
 
 
 def run_units(ctx, theorems=True, n_maf=None, n_coup=None, batch=None):
@@ -596,7 +623,7 @@ def run_units(ctx, theorems=True, n_maf=None, n_coup=None, batch=None):
                 cn = r["cn"][k]
                 uc.count(key, nontrivial=bool(np.any(cn != 0)), tag=tag0)
                 for nm, line in (("raw weights + model masks", m_cn), ("unwrapped weights", m_cnu)):
-                    if line.startswith("ERR") or not vclose(parse_vec(line), cn, 1e-12):
+                    if (line.startswith("ERR") or not vclose(parse_vec(line), cn, 1e-12)) and not _already(ctx, uc, cfg, "fwd"):
                         ecn = np.asarray(layer_mlp(cfg, unwrap(obj))(jnp.asarray(nn_input(cfg, x, c))), dtype=float)
                         if line.startswith("ERR") or not vclose(parse_vec(line), ecn, 1e-12):
                             _report(ctx, uc, cfg, init, raws, biases, obj, "fwd", x, c, f"conditioner output ({nm}): model {line[:150]} != implementation {ecn.tolist()}",
@@ -604,7 +631,7 @@ def run_units(ctx, theorems=True, n_maf=None, n_coup=None, batch=None):
                 # transformer parameters
                 tp = r["tp"][k]
                 up.count(key, nontrivial=True, tag=tag0)
-                if m_tp.startswith("ERR") or not vclose(np.array([v for row in parse_mat(m_tp) for v in row]), tp, 1e-9):
+                if (m_tp.startswith("ERR") or not vclose(np.array([v for row in parse_mat(m_tp) for v in row]), tp, 1e-9)) and not _already(ctx, up, cfg, "fwd"):
                     _report(ctx, up, cfg, init, raws, biases, obj, "fwd", x, c, f"unwrapped transformer parameters: model {m_tp[:200]} != implementation {np.ravel(tp).tolist()}",
                             m_tp, np.ravel(tp).tolist(), oracle)
                 checks = (("fwd", m_f, r["f"][k], None), ("fwdld", m_fl, r["f2"][k], float(r["fl"][k])))
@@ -619,7 +646,7 @@ def run_units(ctx, theorems=True, n_maf=None, n_coup=None, batch=None):
                                     model=line[:160], implementation=[np.ravel(iy).tolist(), ild]))
                 my, ml = parse_yl(line)
                 ok = my != "ERR" and vclose(my, iy, 1e-9) and close(ml, ild, 1e-9)
-                if not ok:
+                if not ok and not _already(ctx, ut, cfg, method):
                     ey, el = eager(obj, method, x, c)   # confirm on the un-jitted, un-batched real method
                     if my == "ERR" or not (vclose(my, ey, 1e-9) and close(ml, el, 1e-9)):
                         _report(ctx, ut, cfg, init, raws, biases, obj, method, x, c, f"model {line[:160]} != implementation {(ey.tolist(), el)}", line, (ey.tolist(), el), oracle)
@@ -637,7 +664,7 @@ def run_units(ctx, theorems=True, n_maf=None, n_coup=None, batch=None):
                     uo.count(key + ("rt",), nontrivial=True, tag=tag0 + ":roundtrip-fwd")
                     err = float(np.max(np.abs(r["rt"][k] - xs)))
                     same_pt = np.allclose(f, r["f2"][k], rtol=1e-12, atol=1e-300)
-                    if not (err <= 1e-6 * (1 + np.max(np.abs(xs))) and same_pt):
+                    if not (err <= 1e-6 * (1 + np.max(np.abs(xs))) and same_pt) and not _bump(ctx, f"{cls}[{tcfg['kind']}]:roundtrip-fwd"):
                         errs = roundtrip_errors(obj, "fwd", xs, c)
                         if errs:
                             ctx.violation(sig=f"{cls}[{tcfg['kind']}]:roundtrip-fwd", what=f"{cls} ({tcfg['kind']} transformer): " + "; ".join(errs),
@@ -646,7 +673,7 @@ def run_units(ctx, theorems=True, n_maf=None, n_coup=None, batch=None):
                 if want_jac and np.all(np.isfinite(f)) and np.isfinite(r["fl"][k]) and not _at_clip_tie(cfg, xs, f):
                     sign, ref = np.linalg.slogdet(r["J"][k])
                     uo.count(key + ("ad",), nontrivial=bool(abs(r["fl"][k]) > 1e-3), tag=tag0 + ":autodiff")
-                    if sign != 0 and np.isfinite(ref) and not abs(float(r["fl"][k]) - ref) <= 1e-6 * max(1.0, abs(ref)):
+                    if sign != 0 and np.isfinite(ref) and not abs(float(r["fl"][k]) - ref) <= 1e-6 * max(1.0, abs(ref)) and not _bump(ctx, f"{cls}[{tcfg['kind']}]:logdet"):
                         errs = autodiff_errors(cfg, obj, xs, c)
                         if errs:
                             ctx.violation(sig=f"{cls}[{tcfg['kind']}]:logdet", what=f"{cls} ({tcfg['kind']} transformer): " + "; ".join(errs),
@@ -659,7 +686,7 @@ def run_units(ctx, theorems=True, n_maf=None, n_coup=None, batch=None):
                     uo.count(key + ("rt",), nontrivial=True, tag=tag0 + ":roundtrip-inv")
                     err = float(np.max(np.abs(r["rt2"][k] - ys)))
                     same_pt = np.allclose(i, r["i2"][k], rtol=1e-12, atol=1e-300)
-                    if not (err <= 1e-6 * (1 + np.max(np.abs(ys))) and same_pt):
+                    if not (err <= 1e-6 * (1 + np.max(np.abs(ys))) and same_pt) and not _bump(ctx, f"{cls}[{tcfg['kind']}]:roundtrip-inv"):
                         errs = roundtrip_errors(obj, "inv", ys, c)
                         if errs:
                             ctx.violation(sig=f"{cls}[{tcfg['kind']}]:roundtrip-inv", what=f"{cls} ({tcfg['kind']} transformer): " + "; ".join(errs),
